@@ -357,7 +357,7 @@ CHECKS = {
             "covers": {"VerifC01Overlap": ["overlapped", "announced-head-is-cached", "announced-head-is-newer"]},
         }, {
             "pkg": DOC, "funcs": ["VerifC01Docs"],
-            "params": {"quick": {"STEPS": 2}, "thorough": {"STEPS": 3}},
+            "params": {"quick": {"STEPS": 2}, "thorough": {"STEPS": 2}},
             "max_paths": {"quick": 60000, "thorough": 600000},
             "timeout": {"quick": "10m", "thorough": "60m"},
             "covers": {"VerifC01Docs": ["converged", "partial-load", "put-batch", "put-all"]},
@@ -370,7 +370,7 @@ CHECKS = {
             "distinct entries never share (Lamport time, writer key): holds by construction (each identity writes through one live store)",
             "document store: the same shape with Put / PutAll (two documents) / PutBatch (two documents) / Delete over symbolic keys drawn from a two-key alphabet, so overwrites, deletes of present and absent keys and PUTALL batches that contain a key twice all occur; the view must equal the replay of the replica's own log after every step",
         ],
-        "outside": ["more than two writers / longer histories", "Go map iteration orders other than insertion order", "byte-level JSON/CBOR"],
+        "outside": ["document store histories of 3 steps (did not finish within 60 minutes: the registered thorough bound is STEPS=2, as quick)", "more than two writers / longer histories", "Go map iteration orders other than insertion order", "byte-level JSON/CBOR"],
     },
     "C15": {
         "groups": [{
